@@ -39,6 +39,9 @@ pub struct Plan {
     /// leaves behind on the thread must not show in the next one (missed seeded change C13-10)
     #[serde(default)]
     pub failed_write_first: u32,
+    /// a class write that fails inside an attribute body is made on this thread before anything else
+    #[serde(default)]
+    pub poison_first: bool,
 }
 
 /// One logical entry name, with what each side holds under it.
@@ -988,7 +991,8 @@ impl Engine for C13 {
             fresh
         });
 
-        let mut p = Plan { items, c_deflate: w.chance(60), s_deflate: w.chance(60), c_io: IoPlan::plain(), s_io: IoPlan::plain(), lazy: None, failed_write_first: 0 };
+        let mut p = Plan { items, c_deflate: w.chance(60), s_deflate: w.chance(60), c_io: IoPlan::plain(), s_io: IoPlan::plain(), lazy: None, failed_write_first: 0, poison_first: false };
+        p.poison_first = rng.split("poison-first").chance(5);
         {
             let mut fw = rng.split("failed-write-first");
             if fw.chance(12) {
@@ -1045,6 +1049,9 @@ impl Engine for C13 {
     }
 
     fn exec(&self, p: &Plan, st: &mut RunStats) -> Vec<Violation> {
+        if p.poison_first && crate::c02::poison_write() {
+            st.probe("poison_write_first");
+        }
         let mut out = vec![];
         let b = build(p);
         st.shape = b.shape;
@@ -1295,6 +1302,9 @@ impl Engine for C13 {
         let mut c: Vec<Plan> = vec![];
         if p.failed_write_first != 0 {
             c.push(Plan { failed_write_first: 0, ..p.clone() });
+        }
+        if p.poison_first {
+            c.push(Plan { poison_first: false, ..p.clone() });
         }
         if let Some((lc, ls)) = &p.lazy {
             c.push(Plan { lazy: None, ..p.clone() });
